@@ -276,13 +276,19 @@ def run_pie_check(prop, tier, seed, replay):
 def run_check(prop, tier, seed, replay):
     if prop in PIE_PROPS:
         return run_pie_check(prop, tier, seed, replay)
+    if prop in DAG_PROPS:
+        return run_dag_check(prop, tier, seed, replay)
+    if prop in UNIT_PROPS:
+        return run_unit_check(prop, tier, seed, replay)
+    if prop == "C16":
+        return run_det_check(prop, tier, seed, replay)
     print("no check registered for", prop)
     return 2
 
 
 def setup():
     build_harness()
-    for m in ["PieCore", "PieMon", "PieTrace"]:
+    for m in ["PieCore", "PieMon", "PieTrace", "Pie", "DagCore", "DagPK", "DagTrace", "UnitModels", "UnitTrace", "TraceEq"]:
         p = sh(["tla-sany", m + ".tla"], cwd=SPEC, check=False, timeout=300)
         if "Semantic errors" in p.stdout or "Parse Error" in p.stdout or "Fatal errors" in p.stdout:
             raise ToolError("SANY rejects %s:\n%s" % (m, p.stdout[-2000:]))
@@ -473,3 +479,308 @@ def tlc_scenarios(name, overrides, num, depth, seed, cap=150):
         if len(scns) >= cap:
             break
     return r, scns
+
+
+# ------------------------------------------------------------------------------------------------ DAG (C10, C11)
+
+def run_dagpk(max_nodes, max_ops, data, emit=False, simulate=None, timeout=3000, reinsert=False, tag="q"):
+    d = os.path.join(WORK, "mc")
+    os.makedirs(d, exist_ok=True)
+    cfg = os.path.join(d, "DagPK_%s.cfg" % tag)
+    with open(cfg, "w") as f:
+        f.write("SPECIFICATION Spec\nCONSTANTS\n  MaxNodes = %d\n  MaxOps = %d\n  Data = {%s}\n  ReinsertMovesToBack = %s\n  EmitSequences = %s\n"
+                % (max_nodes, max_ops, ", ".join(str(x) for x in data), tla_val(reinsert), tla_val(emit)))
+        f.write("INVARIANTS C10_Ranks C10_Acyclic C10_Result C10_LiveAgree C11_Encodings C11_Order C11_Data C11_NoDup\n")
+        if not simulate:
+            f.write("PROPERTY ResultMatches\n")
+        f.write("VIEW view\nCHECK_DEADLOCK FALSE\n")
+    extra = ["-simulate", "num=%d" % simulate[0], "-depth", str(simulate[1])] if simulate else []
+    r = tlc("DagPK", cfg, workers=1 if simulate else max(2, min(12, NCPU - 4)), timeout=timeout, extra=extra,
+            metadir=os.path.join(d, "md_dagpk_" + tag), java_opts="-Xss512m -XX:+UseParallelGC -Xmx12g")
+    mm = re.search(r"The number of states generated: (\d+)", r["out"])
+    if mm:
+        r["generated"] = int(mm.group(1))
+    mm = re.search(r"Invariant (\w+) is violated", r["out"])
+    r["violated"] = mm.group(1) if mm else None
+    r["seq_lines"] = [l for l in r["out"].split("\n") if l.startswith('"{')] if emit else []
+    return r
+
+
+def run_dag_check(prop, tier, seed, replay):
+    t0 = time.time()
+    build_harness()
+    design = []
+    seq_file = os.path.join(WORK, "%s.seqs.jsonl" % prop)
+    trace_file = os.path.join(WORK, "%s.trace.ndjson" % prop)
+    out_file = os.path.join(WORK, "%s.result.json" % prop)
+    dagbin = os.path.join(BIN, "dag_run")
+    sim = None
+    with open(seq_file, "w") as out:
+        if replay:
+            out.write(json.dumps(json.load(open(replay))["scenario"]) + "\n")
+        else:
+            confs = [(4, 7, [1, 2], "q4"), (5, 9, [1], "q5")] + ([(5, 11, [1], "t5"), (6, 9, [1], "t6")] if tier == "thorough" else [])
+            for (n, o, data, tag) in confs:
+                r = run_dagpk(n, o, data, tag=tag)
+                if r["violated"] or not r["ok"]:
+                    raise ToolError("design-level check DagPK(%d nodes, %d ops) failed (independent of /repo): %s\n%s"
+                                    % (n, o, r["violated"], r["out"][-2500:]))
+                design.append({"name": "DagPK", "max_nodes": n, "max_ops": o, "data": data, "distinct": r["distinct"],
+                               "generated": r["generated"], "wall_s": r["wall_s"]})
+            # spec -> implementation: behaviours of the algorithm model replayed on the real DAG
+            num = 300 if tier == "quick" else 5000
+            r = run_dagpk(6, 24, [1, 2, 3], emit=True, simulate=(num, 30), tag="sim")
+            if r["violated"]:
+                raise ToolError("simulation of DagPK raised " + r["violated"])
+            k = 0
+            for line in r["seq_lines"]:
+                try:
+                    rec = json.loads(json.loads(line))
+                except Exception:
+                    continue
+                ops = rec["ops"]
+                pol = k % 4
+                for i, o in enumerate(ops):
+                    o["q"] = 2 if pol == 0 else 1 if pol == 1 else (2 if i % 5 == 4 else 0) if pol == 2 else 0
+                    for fld in ("a", "b", "d"):
+                        o.setdefault(fld, 0)
+                if ops:
+                    ops[-1]["q"] = 2
+                out.write(json.dumps({"id": "tlc-dag-%d-%d" % (seed, k), "ops": ops}) + "\n")
+                k += 1
+                if k >= (500 if tier == "quick" else 8000):
+                    break
+            sim = {"behaviours": num, "sequences_replayed": k, "states_generated": r["generated"]}
+            part = os.path.join(WORK, prop + ".part.jsonl")
+            for j, (n, mx, ops) in enumerate([(250, 6, 30), (80, 9, 60)] if tier == "quick" else [(4000, 6, 40), (1500, 10, 120)]):
+                sh([dagbin, "gen", "--n", str(n), "--seed", str(seed * 100 + j), "--max-nodes", str(mx), "--ops", str(ops), "--out", part])
+                out.write(open(part).read())
+            os.remove(part)
+    sh([dagbin, "run", "--seqs", seq_file, "--out", trace_file], timeout=1800)
+    if os.path.exists(out_file):
+        os.remove(out_file)
+    cfg = os.path.join(WORK, "DagTrace.cfg")
+    open(cfg, "w").write("SPECIFICATION Spec\nPOSTCONDITION Accepted\nCHECK_DEADLOCK FALSE\n")
+    r = tlc("DagTrace", cfg, env={"TRACE": trace_file, "OUT": out_file}, workers=1, timeout=3000,
+            metadir=os.path.join(WORK, "tlc_dagtrace_" + prop))
+    if not r["ok"] or not os.path.exists(out_file):
+        raise ToolError("DAG trace validation failed:\n" + r["out"][-3000:])
+    res = json.load(open(out_file))
+    seqs = load_scenarios(seq_file)
+    viol = [v for v in res["viol"] if v[2] == prop]
+    rc = 0
+    reported = set()
+    lines = None
+    for v in viol:
+        sid = seqs[v[0] - 1]["id"]
+        if (sid, v[3]) in reported:
+            continue
+        reported.add((sid, v[3]))
+        if lines is None:
+            lines = open(trace_file).read().split("\n")
+        path = write_replay(prop, v[3], seqs[v[0] - 1], v[1], [lines[v[1] - 1][:2000]])
+        print("VIOLATION property=%s replay=%s" % (prop, path))
+        print("  formula=%s sequence=%s trace line=%d" % (v[3], sid, v[1]))
+        rc = 1
+        if len(reported) >= 20:
+            break
+    coverage = {
+        "states": r["distinct"] + sum(d["distinct"] for d in design),
+        "transitions": r["generated"] + sum(d["generated"] for d in design) + (sim["states_generated"] if sim else 0),
+        "traces_validated_against_impl": res["cnt"]["seqs"],
+        "samples": [{"id": s["id"], "ops": s["ops"][:8]} for s in seqs[:2]],
+        "evaluations": res["cnt"][prop], "distinct_nontrivial": res["cnt"]["seqs"],
+        "rule": "one case = one operation sequence executed on the real pie_graph::DAG; after every operation its result and "
+                "(per observation level) every public query for every pair of created nodes is compared by TLC (DagTrace.tla) "
+                "with the abstract DAG advanced from the operation arguments alone; every sequence contains insertions and at "
+                "least one full observation, so every sequence is non-trivial",
+        "events_validated": res["events"], "design_configs": design, "design_simulation": sim,
+        "trace_validation": {"distinct": r["distinct"], "generated": r["generated"], "wall_s": r["wall_s"]},
+        "violations_other_property_seen": len(res["viol"]) - len(viol), "exhaustive": False,
+    }
+    write_evidence(prop, tier, seed, "model_checking", coverage, time.time() - t0, len(reported),
+                   ["the harness dag_run reports faithfully what pie_graph::DAG returned", "TLC evaluates the specification correctly",
+                    "DagPK.tla is exhaustive only within the stated node/operation bounds; larger graphs are sampled"])
+    print("%s: %d sequences, %d events validated, %d formula evaluations, %d violation(s) [%.0fs]"
+          % (prop, res["cnt"]["seqs"], res["events"], res["cnt"][prop], len(reported), time.time() - t0))
+    return rc
+
+
+DAG_PROPS = {"C10", "C11"}
+ALL_CHECKS = set(PIE_PROPS.keys()) | DAG_PROPS
+ENGINE_OF.update({"C10": "dag-trace", "C11": "dag-trace"})
+TECHNIQUE_OF.update({p: "TLA+ model of the Pearce-Kelly DAG (DagPK.tla) checked exhaustively by TLC + TLC trace validation (DagTrace.tla) of operation sequences executed on pie_graph::DAG" for p in DAG_PROPS})
+
+
+# ------------------------------------------------------------------------------------------------ small models (C12, C13, C14)
+
+UNIT_PROPS = {
+    # prop: (suite, quick n, thorough n, model invariants checked at design level)
+    "C12": ("checkers", 1, 1, ["C12_Model", "C12_Reflexive"]),
+    "C14": ("map", 400, 6000, []),
+}
+
+
+def run_unit_trace(trace_file, out_file, tag):
+    cfg = os.path.join(WORK, "UnitTrace_%s.cfg" % tag)
+    open(cfg, "w").write("SPECIFICATION Spec\nCONSTANT EdgeReinsertMovesToBack = FALSE\nPOSTCONDITION Accepted\nCHECK_DEADLOCK FALSE\n")
+    if os.path.exists(out_file):
+        os.remove(out_file)
+    r = tlc("UnitTrace", cfg, env={"TRACE": trace_file, "OUT": out_file}, workers=1, timeout=3000,
+            metadir=os.path.join(WORK, "tlc_unit_" + tag))
+    if not r["ok"] or not os.path.exists(out_file):
+        raise ToolError("unit trace validation failed:\n" + r["out"][-3000:])
+    res = json.load(open(out_file))
+    res["tlc"] = {k: r[k] for k in ("distinct", "generated", "wall_s")}
+    return res
+
+
+def run_unit_model(invs, tag):
+    if not invs:
+        return None
+    cfg = os.path.join(WORK, "UnitModel_%s.cfg" % tag)
+    open(cfg, "w").write("SPECIFICATION ModelSpec\nCONSTANT EdgeReinsertMovesToBack = FALSE\nINVARIANTS %s\nCHECK_DEADLOCK FALSE\n" % " ".join(invs))
+    r = tlc("UnitTrace", cfg, workers=1, timeout=600, metadir=os.path.join(WORK, "tlc_unitmodel_" + tag))
+    if not r["ok"]:
+        raise ToolError("design-level check of the small model failed (independent of /repo):\n" + r["out"][-2500:])
+    return {"invariants": invs, "distinct": r["distinct"], "generated": r["generated"], "wall_s": r["wall_s"]}
+
+
+def run_unit_check(prop, tier, seed, replay):
+    t0 = time.time()
+    suite, nq, nth, invs = UNIT_PROPS[prop]
+    build_harness()
+    model = run_unit_model(invs, prop)
+    trace_file = os.path.join(WORK, "%s.trace.ndjson" % prop)
+    out_file = os.path.join(WORK, "%s.result.json" % prop)
+    n = nq if tier == "quick" else nth
+    useed = seed
+    if replay:
+        rp = json.load(open(replay))
+        useed, n = rp["scenario"]["seed"], rp["scenario"]["n"]
+    sh([os.path.join(BIN, "unit_run"), suite, "--seed", str(useed), "--n", str(n), "--out", trace_file, "--dir",
+        os.path.join(WORK, "files_" + prop)], timeout=3000)
+    res = run_unit_trace(trace_file, out_file, prop)
+    viol = [v for v in res["viol"] if v[1] == prop]
+    lines = open(trace_file).read().split("\n")
+    rc = 0
+    reported = set()
+    for v in viol:
+        if v[2] in reported:
+            continue
+        reported.add(v[2])
+        path = write_replay(prop, v[2], {"id": "%s-%d" % (suite, useed), "suite": suite, "seed": useed, "n": n}, v[0],
+                            lines[max(0, v[0] - 6):v[0]])
+        print("VIOLATION property=%s replay=%s" % (prop, path))
+        print("  formula=%s trace line=%d: %s" % (v[2], v[0], lines[v[0] - 1][:300]))
+        rc = 1
+    samples = [json.loads(l) for l in lines[1:4] if l.strip()]
+    runs = sum(1 for l in lines if l.startswith('{"ev":"reset"'))
+    coverage = {
+        "states": res["tlc"]["distinct"] + (model["distinct"] if model else 0),
+        "transitions": res["tlc"]["generated"] + (model["generated"] if model else 0),
+        "traces_validated_against_impl": runs, "samples": samples,
+        "evaluations": res["evaluations"], "distinct_nontrivial": res["evaluations"],
+        "rule": "one case = one logged call/operation of the real code with its arguments and result, compared by TLC "
+                "(UnitTrace.tla) with the small model of UnitModels.tla; every logged case carries a result to compare, so "
+                "every case is non-trivial",
+        "design_model": model, "trace_validation": res["tlc"],
+        "exhaustive": prop == "C12",
+        "violations_other_property_seen": len(res["viol"]) - len(viol),
+    }
+    write_evidence(prop, tier, seed, "model_checking", coverage, time.time() - t0, len(reported),
+                   ["the harness unit_run logs arguments and results faithfully", "TLC evaluates the specification correctly"])
+    print("%s: %d runs, %d events validated, %d violation(s) [%.0fs]" % (prop, runs, res["events"], len(reported), time.time() - t0))
+    return rc
+
+
+ALL_CHECKS |= set(UNIT_PROPS.keys())
+for _p in UNIT_PROPS:
+    ENGINE_OF[_p] = "unit-trace"
+    TECHNIQUE_OF[_p] = "TLA+ small model (UnitModels.tla) + TLC validation (UnitTrace.tla) of every logged call of the real code"
+
+
+# ------------------------------------------------------------------------------------------------ C16 determinism
+
+def trace_eq(a, b, tag):
+    out_file = os.path.join(WORK, "C16.%s.json" % tag)
+    if os.path.exists(out_file):
+        os.remove(out_file)
+    cfg = os.path.join(WORK, "TraceEq.cfg")
+    open(cfg, "w").write("SPECIFICATION Spec\nPOSTCONDITION Accepted\nCHECK_DEADLOCK FALSE\n")
+    r = tlc("TraceEq", cfg, env={"TRACE": a, "TRACE2": b, "OUT": out_file}, workers=1, timeout=3000,
+            metadir=os.path.join(WORK, "tlc_eq_" + tag))
+    if not os.path.exists(out_file):
+        raise ToolError("trace comparison failed:\n" + r["out"][-3000:])
+    res = json.load(open(out_file))
+    res["tlc"] = {k: r[k] for k in ("distinct", "generated", "wall_s")}
+    return res
+
+
+def run_det_check(prop, tier, seed, replay):
+    t0 = time.time()
+    build_harness()
+    scn_file = os.path.join(WORK, "C16.scn.jsonl")
+    with open(scn_file, "w") as out:
+        if replay:
+            out.write(json.dumps(json.load(open(replay))["scenario"]) + "\n")
+        else:
+            for c in ["known_findings.jsonl"]:
+                out.write(open(os.path.join(SCEN, c)).read())
+            part = os.path.join(WORK, "C16.part.jsonl")
+            for k, (fam, nq, nth, opts) in enumerate([("WF", 70, 1500, dict(max_t=7, max_r=5, steps=6)), ("WF", 40, 800, dict(max_t=5, max_r=4, steps=7)),
+                                                      ("ROLE", 20, 300, dict(max_t=4)), ("ABORT", 20, 300, {})]):
+                gen_scenarios(fam, nq if tier == "quick" else nth, seed * 1000 + 50 + k, part, **opts)
+                out.write(open(part).read())
+            os.remove(part)
+    t1 = os.path.join(WORK, "C16.trace.ndjson")
+    tp = os.path.join(WORK, "C16.trace.proc2.ndjson")
+    run_scenarios(scn_file, t1, repeat=3)      # three fresh instances in one process
+    run_scenarios(scn_file, tp, repeat=1)      # and a second process
+    scns = load_scenarios(scn_file)
+    rc = 0
+    reported = set()
+    stats = []
+    lines = None
+    for tag, other in (("inproc2", t1 + ".2"), ("inproc3", t1 + ".3"), ("proc2", tp)):
+        res = trace_eq(t1, other, tag)
+        stats.append({"replay": tag, "events": res["eventsA"], "differing_runs": len(res["diffs"]), "tlc": res["tlc"]})
+        for d in res["diffs"]:
+            scn = scns[d[0] - 1]
+            if scn["id"] in reported:
+                continue
+            reported.add(scn["id"])
+            if lines is None:
+                lines = open(t1).read().split("\n")
+            olines = open(other).read().split("\n")
+            path = write_replay(prop, "replays_differ", scn, d[1], [lines[d[1] - 1][:1500], olines[d[1] - 1][:1500] if d[1] - 1 < len(olines) else "<missing>"])
+            print("VIOLATION property=%s replay=%s" % (prop, path))
+            print("  replays of scenario %s differ at event %d (%s)" % (scn["id"], d[1], tag))
+            rc = 1
+            if len(reported) >= 20:
+                break
+    for f in (t1 + ".2", t1 + ".3"):
+        if os.path.exists(f):
+            os.remove(f)
+    multi = sum(1 for s in scns if s["nt"] >= 3)
+    coverage = {
+        "states": sum(s["tlc"]["distinct"] for s in stats), "transitions": sum(s["tlc"]["generated"] for s in stats),
+        "traces_validated_against_impl": len(scns) * 4, "samples": [summarize_scn(s) for s in scns[5:7]],
+        "evaluations": sum(s["events"] for s in stats), "distinct_nontrivial": multi,
+        "rule": "one case = one scenario replayed four times on fresh Pie instances (three in one process, one in a second process); "
+                "TLC (TraceEq.tla) compares the complete recorded streams event by event; non-trivial = scenarios with at least three tasks",
+        "comparisons": stats, "exhaustive": False,
+    }
+    write_evidence(prop, tier, seed, "model_checking", coverage, time.time() - t0, len(reported),
+                   ["every order-relevant container gets a fresh RandomState per instance (std HashMap/HashSet defaults)",
+                    "the harness itself is deterministic"])
+    print("%s: %d scenarios x 4 replays, %d events compared, %d violation(s) [%.0fs]" % (prop, len(scns), coverage["evaluations"], len(reported), time.time() - t0))
+    return rc
+
+
+UNIT_PROPS["C13"] = ("files", 150, 3000, [])
+ALL_CHECKS |= {"C13", "C16"}
+ENGINE_OF["C13"] = "unit-trace"
+TECHNIQUE_OF["C13"] = TECHNIQUE_OF["C14"]
+ENGINE_OF["C16"] = "trace-eq"
+TECHNIQUE_OF["C16"] = "differential replay decided by TLC (TraceEq.tla): complete event streams of four replays must be identical"
